@@ -7,11 +7,16 @@
 // each child node is handed to the walker exactly once (ghost call-site counters; loops visit every element and never
 // leave early). With the AST immutable outside the parser (frozen, see zz_contracts_verif.go) this is the induction
 // step of "every node of the tree is visited"; the induction itself (over the finite tree) is the paper step.
+//
+// C05 / C14 depend on the same contracts for another reason: the cursor -> innermost scope search (FindMinScope) relies
+// on the sub-scopes of a scope being listed in source order, and they are appended in the order the walk meets them.
+// The call sites below are numbered in source order and each is pinned to its child (prefix before arguments, left
+// operand before right, ...), so an analyser that walks its children in another order no longer satisfies them.
 package analysis
 
 // expression dispatch: one analyser per expression kind, called once, on the node itself
 //@ func (*Analysis).cgExp
-//@   props C06 C07 C11 C20
+//@   props C06 C07 C11 C20 C05 C14
 //@   ensures[name-use-reaches-the-name-analyser] typeis(node, "*ast.NameExp") ==> hits("cgNameExp#0") == 1
 //@   ensures[operand-kinds-reach-their-analysers] (typeis(node, "*ast.UnopExp") ==> hits("cgUnopExp#0") == 1) && (typeis(node, "*ast.BinopExp") ==> hits("cgBinopExp#0") == 1)
 //@        && (typeis(node, "*ast.TableAccessExp") ==> hits("cgTableAccessExp#0") == 1) && (typeis(node, "*ast.FuncCallExp") ==> hits("cgFuncCallExp#0") == 1)
@@ -27,7 +32,7 @@ package analysis
 
 // a name: first pass = read marking + undefined bookkeeping; every other pass = the binder
 //@ func (*Analysis).cgNameExp
-//@   props C06 C07 C11
+//@   props C06 C07 C11 C05 C14
 //@   ensures[first-pass-marks-the-read-and-records-undefined-names] a.checkTerm == results.CheckTermFirst ==> hits("checkLocVarNotUse#0") == 1 && hits("analysisNoDefineName#0") == 1
 //@   ensures[later-passes-bind-the-name] a.checkTerm != results.CheckTermFirst ==> hits("findNameStr#0") == 1
 //@   at call findNameStr#0 before assert[binder-gets-the-node-itself] arg1 == node && arg2 == binParentExp
@@ -36,18 +41,18 @@ package analysis
 
 // operators: every operand is walked; a binary operand is walked with its parent expression
 //@ func (*Analysis).cgUnopExp
-//@   props C06 C07 C11 C20
+//@   props C06 C07 C11 C20 C05 C14
 //@   ensures[operand-is-walked] hits("cgExp#0") == 1
 //@   at call cgExp#0 before assert[operand-is-walked] arg1 == node.Exp
 //@ end
 //@ func (*Analysis).cgBinopExp
-//@   props C06 C07 C11
+//@   props C06 C07 C11 C05 C14
 //@   ensures[C06,C07,C11,C20,both-operands-are-walked] hits("cgExp#0") == 1 && hits("cgExp#1") == 1
 //@   at call cgExp#0 before assert[C06,C07,C11,C20,left-operand-is-walked] arg1 == node.Exp1 && arg3 == node
 //@   at call cgExp#1 before assert[C06,C07,C11,C20,right-operand-is-walked] arg1 == node.Exp2 && arg3 == node
 //@ end
 //@ func (*Analysis).cgTableAccessExp
-//@   props C06 C07 C11
+//@   props C06 C07 C11 C05 C14
 //@   ensures[prefix-and-key-are-walked] hits("cgExp#0") == 1 && hits("cgExp#1") == 1
 //@   at call cgExp#0 before assert[prefix-is-walked] arg1 == node.PrefixExp
 //@   at call cgExp#1 before assert[key-is-walked] arg1 == node.KeyExp
@@ -56,7 +61,7 @@ package analysis
 
 // calls: callee prefix and every argument
 //@ func (*Analysis).cgFuncCallExp
-//@   props C06 C07 C11 C20
+//@   props C06 C07 C11 C20 C05 C14
 //@   ensures[prefix-is-walked] hits("cgExp#0") == 1
 //@   at call cgExp#0 before assert[prefix-is-walked] arg1 == node.PrefixExp
 //@   loop range:node.Args exits-early-only-if [every-argument-is-walked] false
@@ -64,7 +69,7 @@ package analysis
 //@   at call cgExp#1 before assert[argument-is-walked] arg1 == arg
 //@ end
 //@ func (*Analysis).cgFuncCallStat
-//@   props C06 C07 C11 C20
+//@   props C06 C07 C11 C20 C05 C14
 //@   ensures[prefix-is-walked] hits("cgExp#0") == 1
 //@   at call cgExp#0 before assert[prefix-is-walked] arg1 == node.PrefixExp
 //@   loop range:node.Args exits-early-only-if [every-argument-is-walked] false
@@ -74,7 +79,7 @@ package analysis
 
 // table constructor: every value, and every non-nil key
 //@ func (*Analysis).cgTableConstructorExp
-//@   props C06 C07 C11 C20
+//@   props C06 C07 C11 C20 C05 C14
 //@   loop range:node.KeyExps exits-early-only-if [every-field-is-walked] false
 //@   loop range:node.KeyExps step [every-value-is-walked-once] hits("cgExp#0") + hits("cgExp#2") == prev(hits("cgExp#0") + hits("cgExp#2")) + 1
 //@   at call cgExp#0 before assert[positional-value-is-walked] arg1 == valExp && isnil(keyExp)
@@ -85,7 +90,7 @@ package analysis
 
 // function body: parameters bound (in order, at their own locations) before the body is walked in the function's scope
 //@ func (*Analysis).cgFuncDefExp
-//@   props C06 C07 C11 C05
+//@   props C06 C07 C11 C05 C14
 //@   at call cgBlock#0 before assert[body-is-walked-with-all-parameters-bound] arg1 == node.Block && hits("AddLocVar#0") == len(node.ParList) && a.curScope == subFi.MainScope && a.curFunc == subFi
 //@   loop range:node.ParList exits-early-only-if [every-parameter-is-bound] false
 //@   loop range:node.ParList step [every-parameter-is-bound] hits("AddLocVar#0") == prev(hits("AddLocVar#0")) + 1
@@ -96,7 +101,7 @@ package analysis
 
 // blocks and statements
 //@ func (*Analysis).cgBlock
-//@   props C06 C07 C11 C20
+//@   props C06 C07 C11 C20 C05 C14
 //@   loop range:node.Stats exits-early-only-if [every-statement-is-walked] false
 //@   loop range:node.Stats step [every-statement-is-walked] hits("cgStat#0") == prev(hits("cgStat#0")) + 1
 //@   at call cgStat#0 before assert[statement-is-walked] arg1 == stat
@@ -104,13 +109,13 @@ package analysis
 //@   at call cgRetStat#0 before assert[return-expressions-are-walked] arg1 == node.RetExps
 //@ end
 //@ func (*Analysis).cgRetStat
-//@   props C06 C07 C11 C20
+//@   props C06 C07 C11 C20 C05 C14
 //@   loop range:exps exits-early-only-if [every-return-expression-is-walked] false
 //@   loop range:exps step [every-return-expression-is-walked] hits("cgExp#0") == prev(hits("cgExp#0")) + 1
 //@   at call cgExp#0 before assert[return-expression-is-walked] arg1 == exp
 //@ end
 //@ func (*Analysis).cgStat
-//@   props C06 C07 C11 C20
+//@   props C06 C07 C11 C20 C05 C14
 //@   ensures[statement-kinds-reach-their-analysers] (typeis(node, "*ast.AssignStat") ==> hits("cgAssignStat#0") == 1) && (typeis(node, "*ast.LocalVarDeclStat") ==> hits("cgLocalVarDeclStat#0") == 1)
 //@        && (typeis(node, "*ast.FuncCallStat") ==> hits("cgFuncCallStat#0") == 1) && (typeis(node, "*ast.IfStat") ==> hits("cgIfStat#0") == 1)
 //@        && (typeis(node, "*ast.WhileStat") ==> hits("cgWhileStat#0") == 1) && (typeis(node, "*ast.RepeatStat") ==> hits("cgRepeatStat#0") == 1)
@@ -120,43 +125,43 @@ package analysis
 
 // block statements: condition and body are walked
 //@ func (*Analysis).cgWhileStat
-//@   props C06 C07 C11 C20
+//@   props C06 C07 C11 C20 C05 C14
 //@   ensures[condition-and-body-are-walked] hits("cgExp#0") == 1 && hits("cgBlock#0") == 1
 //@   at call cgExp#0 before assert[condition-is-walked] arg1 == node.Exp
 //@   at call cgBlock#0 before assert[body-is-walked] arg1 == node.Block
 //@ end
 //@ func (*Analysis).cgDoStat
-//@   props C06 C07 C11 C20
+//@   props C06 C07 C11 C20 C05 C14
 //@   ensures[body-is-walked] hits("cgBlock#0") == 1
 //@   at call cgBlock#0 before assert[body-is-walked] arg1 == node.Block
 //@ end
 //@ func (*Analysis).cgRepeatStat
-//@   props C06 C07 C11 C20
+//@   props C06 C07 C11 C20 C05 C14
 //@   ensures[body-and-condition-are-walked] hits("cgExp#0") == 1 && hits("cgBlock#0") == 1
 //@   at call cgExp#0 before assert[condition-is-walked] arg1 == node.Exp
 //@   at call cgBlock#0 before assert[body-is-walked] arg1 == node.Block
 //@ end
 //@ func (*Analysis).cgForNumStat
-//@   props C06 C07 C11 C20
+//@   props C06 C07 C11 C20 C05 C14
 //@   ensures[header-and-body-are-walked] hits("cgExp#0") == 1 && hits("cgExp#1") == 1 && hits("cgExp#2") == 1 && hits("cgBlock#0") == 1
 //@   at call cgExp#0 before assert[init-is-walked] arg1 == node.InitExp
 //@   at call cgExp#2 before assert[limit-is-walked] arg1 == node.LimitExp
 //@ end
 //@ func (*Analysis).cgForInStat
-//@   props C06 C07 C11 C20
+//@   props C06 C07 C11 C20 C05 C14
 //@   loop range:node.ExpList exits-early-only-if [every-iterator-expression-is-walked] false
 //@   at call cgExp#0 before assert[iterator-expression-is-walked] arg1 == oneExp
 //@   ensures[body-is-walked] hits("cgBlock#0") == 1
 //@ end
 //@ func (*Analysis).cgLocalFuncDefStat
-//@   props C06 C07 C11 C20
+//@   props C06 C07 C11 C20 C05 C14
 //@   ensures[function-expression-is-walked] hits("cgFuncDefExp#0") == 1
 //@   at call cgFuncDefExp#0 before assert[function-expression-is-walked] arg1 == node.Exp
 //@ end
 
 // if / elseif / else: every condition and every block is walked, the block in a scope whose range is the block's
 //@ func (*Analysis).cgIfStat
-//@   props C06 C07 C11 C20
+//@   props C06 C07 C11 C20 C05 C14
 //@   loop range:node.Exps#1 exits-early-only-if [every-branch-is-walked] false
 //@   loop range:node.Exps#1 step [every-condition-and-block-is-walked] hits("cgExp#0") == prev(hits("cgExp#0")) + 1 && hits("cgBlock#0") == prev(hits("cgBlock#0")) + 1
 //@   at call cgExp#0 before assert[condition-is-walked] arg1 == exp
